@@ -16,7 +16,8 @@ Record case := {
   i_failed : bool;                        (* the verdict *)
   i_aborted : bool;                       (* an exception escaped Runner.run() *)
   i_summaries : list (nat * nat * nat * nat);   (* "Ran N tests with F failures, E errors and S skipped" lines, in order *)
-  i_total : option (nat * nat * nat * nat)      (* the "Total:" line *)
+  i_total : option (nat * nat * nat * nat);     (* the "Total:" line *)
+  i_injected : bool                             (* the harness made a layer subprocess die / fail to start / cut its report *)
 }.
 
 Definition hout_eqb (a b : hout) : bool :=
